@@ -21,6 +21,9 @@ pub enum Style {
     FinMidFrame,
     CapsuleShort(usize),
     CapsuleLong,
+    /// reason longer than 1024 bytes whose 1024th byte falls inside a multi-byte character (0: 2-byte, 1: 3-byte, 2: only 3-byte
+    /// characters, 3: 4-byte)
+    CapsuleLongMb(u8),
     CapsuleBadUtf8,
     QuicClose { code: u64, reason: Vec<u8> },
 }
@@ -43,6 +46,7 @@ impl Sc {
             Style::FinMidFrame => json!({"s":"fin_mid_frame"}),
             Style::CapsuleShort(n) => json!({"s":"capsule_short","n":n}),
             Style::CapsuleLong => json!({"s":"capsule_long"}),
+            Style::CapsuleLongMb(k) => json!({"s":"capsule_long_mb","k":k}),
             Style::CapsuleBadUtf8 => json!({"s":"capsule_bad_utf8"}),
             Style::QuicClose { code, reason } => json!({"s":"quic_close","code":code,"reason":vx::hex(reason)}),
         };
@@ -59,6 +63,7 @@ impl Sc {
             "fin_mid_frame" => Style::FinMidFrame,
             "capsule_short" => Style::CapsuleShort(s["n"].as_u64().unwrap() as usize),
             "capsule_long" => Style::CapsuleLong,
+            "capsule_long_mb" => Style::CapsuleLongMb(s["k"].as_u64().unwrap_or(0) as u8),
             "capsule_bad_utf8" => Style::CapsuleBadUtf8,
             _ => Style::QuicClose { code: s["code"].as_u64().unwrap(), reason: rs() },
         };
@@ -168,6 +173,18 @@ pub async fn run(sc: Sc) -> Result<String, String> {
         Style::CapsuleLong => {
             let mut p = 9u32.to_be_bytes().to_vec();
             p.extend(std::iter::repeat(b'r').take(1025));
+            let cap = rc::capsule_encode(rc::reg::CAPSULE_CLOSE_WEBTRANSPORT_SESSION, &p);
+            rs.req_send.write_all(&rc::frame_encode(rc::reg::FRAME_DATA, &cap)).await.map_err(|e| format!("{e:?}"))?;
+        }
+        Style::CapsuleLongMb(k) => {
+            let mut p = 9u32.to_be_bytes().to_vec();
+            let reason: String = match k {
+                0 => format!("{}\u{e9}", "r".repeat(1023)),
+                1 => format!("{}\u{20ac}", "r".repeat(1022)),
+                2 => "\u{20ac}".repeat(342),
+                _ => format!("{}\u{1f44b}", "r".repeat(1021)),
+            };
+            p.extend_from_slice(reason.as_bytes());
             let cap = rc::capsule_encode(rc::reg::CAPSULE_CLOSE_WEBTRANSPORT_SESSION, &p);
             rs.req_send.write_all(&rc::frame_encode(rc::reg::FRAME_DATA, &cap)).await.map_err(|e| format!("{e:?}"))?;
         }
@@ -296,6 +313,9 @@ pub fn scenarios(tier: Tier) -> Vec<Sc> {
         styles.push(Style::CapsuleShort(n));
     }
     styles.push(Style::CapsuleLong);
+    for k in 0..4u8 {
+        styles.push(Style::CapsuleLongMb(k));
+    }
     styles.push(Style::CapsuleBadUtf8);
     let mut out = vec![];
     for st in styles {
